@@ -4,6 +4,7 @@ import json
 import os
 import random
 import shutil
+import signal
 import sys
 
 from harness import core, forkpool, functional, sched, tlc
@@ -157,6 +158,10 @@ def seq_chunk(job):
                     # repr()/str() of the object (a log line): whatever it reads, it is no reason
                     # for the block to read a shared source again
                     (repr if rnd.random() < 0.5 else str)(p)
+                elif r < 0.36 and src != "stat":
+                    # a signal sent through the object (its PID-reuse probe looks at stat, which is
+                    # why this is left out when stat is the source under watch)
+                    p.send_signal(signal.SIGCONT)
                 elif r < 0.47 and depth < 3:
                     rec.block(p, lambda: prog(depth + 1), raising=rnd.random() < 0.3)
                 else:
@@ -183,6 +188,7 @@ PROGRAMS = [
     (["as_dict", "mP"], ["as_dict"], ["bump", "bump"]),
     (["enter", "mF", "repr", "mF", "mP", "exit"], ["mF"], ["bump"]),
     # a plain call in flight while the source moves and another thread enters a block
+    (["enter", "mF", "sig", "mF", "mP", "exit"], ["mF"], ["bump"]),
     (["mF"], ["bump", "enter", "mF", "mP", "exit"], []),
     (["mP", "mF"], ["bump", "enter", "mP", "mF", "exit", "bump", "enter", "mF", "exit"], ["mF"]),
 ]
@@ -231,6 +237,9 @@ def thread_chunk(job):
                             rec.call(p, "as_dict")
                         elif op == "repr":
                             repr(p)
+                        elif op == "sig":
+                            if src != "stat":
+                                p.send_signal(signal.SIGCONT)
                         else:
                             rec.call(p, mF if op == "mF" else mP)
                 run_ops(False)
